@@ -653,7 +653,13 @@ func (vc *FnVC) strData(s string) string {
 func (vc *FnVC) libModel(st *State, callee *ssa.Function, c *ssa.CallCommon, args []*Val, rt types.Type, instr *ssa.Call) *Val {
 	switch callee.String() {
 	case "github.com/corazawaf/coraza/v3/internal/strings.WrapUnsafe":
-		// the string shares the bytes of buf; buf must not be mutated afterwards (ownership: not checked here)
+		// the string shares the bytes of buf; buf must not be mutated afterwards. Ownership obligation (C14, class
+		// `owned`): the buffer is nil or was allocated during this activation, so no later call can reach it.
+		if vc.entry != nil && len(args) == 1 && sortOf(args[0].T) == "Slice" {
+			b := sx("s.base", args[0].S)
+			goal := smtOr(sx("=", b, "0"), sx(">", sx("ref.root", b), vc.get(vc.entry, "$alloc")))
+			vc.oblige(st, "owned", "WrapUnsafe("+vc.srcText(c.Args[0], instr)+")", goal, "the buffer handed to WrapUnsafe was allocated by this call (nobody else can write it later)")
+		}
 		return vc.bytesToString(st, args[0], rt)
 	case "unsafe.String", "unsafe.StringData", "unsafe.SliceData", "unsafe.Slice":
 		return nil
